@@ -646,18 +646,75 @@ type c19Edit struct {
 	Param    string
 	New      string
 	Note     string // fresh / collide_alias / collide_param
+	// Kind "combo": several edits given to ONE Refactor invocation, as
+	// `mro edit --rename X=Y --rename-output Y.o=p --remove-unused-calls`
+	// allows.  Refactor performs them in the order renames, input renames,
+	// output renames, input removals, output removals, unused calls/outputs,
+	// each on the Asts the earlier ones already modified; so later sub-edits
+	// name callables by their NEW names.  Callable holds the encoded list.
+	Subs []c19Edit
 }
 
 func (e c19Edit) String() string {
 	return fmt.Sprintf("%s %s %s %s %s", e.Kind, hx.H(e.Callable), hx.H(e.Param), hx.H(e.New), e.Note)
 }
 
+func c19Combo(note string, subs ...c19Edit) c19Edit {
+	parts := make([]string, len(subs))
+	for i, s := range subs {
+		parts[i] = strings.Join([]string{s.Kind, hx.H(s.Callable), hx.H(s.Param), hx.H(s.New), s.Note}, ",")
+	}
+	return c19Edit{Kind: "combo", Callable: strings.Join(parts, ";"), Note: note, Subs: subs}
+}
+
 func c19EditOf(f []string) c19Edit {
-	return c19Edit{Kind: f[0], Callable: hx.U(f[1]), Param: hx.U(f[2]), New: hx.U(f[3]), Note: f[4]}
+	e := c19Edit{Kind: f[0], Callable: hx.U(f[1]), Param: hx.U(f[2]), New: hx.U(f[3]), Note: f[4]}
+	if e.Kind == "combo" {
+		for _, part := range strings.Split(e.Callable, ";") {
+			e.Subs = append(e.Subs, c19EditOf(strings.Split(part, ",")))
+		}
+	}
+	return e
+}
+
+// the name a callable has after the callable renames of a combo
+func (e c19Edit) renamed(name string) string {
+	for _, s := range e.Subs {
+		if s.Kind == "rename" && s.Callable == name {
+			name = s.New
+		}
+	}
+	return name
+}
+
+// the name a callable had before the callable renames of a combo
+func (e c19Edit) original(name string) string {
+	for i := len(e.Subs) - 1; i >= 0; i-- {
+		if s := e.Subs[i]; s.Kind == "rename" && s.New == name {
+			name = s.Callable
+		}
+	}
+	return name
 }
 
 func (e c19Edit) config(top string) refactoring.RefactorConfig {
 	var c refactoring.RefactorConfig
+	if e.Kind == "combo" {
+		top = e.renamed(top)
+		for _, s := range e.Subs {
+			k := s.config(top)
+			c.Rename = append(c.Rename, k.Rename...)
+			c.RenameInParam = append(c.RenameInParam, k.RenameInParam...)
+			c.RenameOutParam = append(c.RenameOutParam, k.RenameOutParam...)
+			c.RemoveInParams = append(c.RemoveInParams, k.RemoveInParams...)
+			c.RemoveOutParams = append(c.RemoveOutParams, k.RemoveOutParams...)
+			c.RemoveCalls = c.RemoveCalls || k.RemoveCalls
+			if k.TopCalls != nil {
+				c.TopCalls = k.TopCalls
+			}
+		}
+		return c
+	}
 	cp := refactoring.CallableParam{Callable: e.Callable, Param: e.Param}
 	switch e.Kind {
 	case "rename":
@@ -755,6 +812,59 @@ func c19Edits(p *c19Prog) []c19Edit {
 	}
 	for _, k := range []string{"unused_outs", "unused_calls", "unused_both"} {
 		out = append(out, c19Edit{Kind: k, Note: "-"})
+	}
+	// several edits in one invocation: every callable rename (fresh, and onto
+	// an alias in use, which forces aliases) combined with a second and third
+	// edit that has to find the renamed callable's calls again
+	for ci, c := range cals {
+		targets := []string{"NEWNAME"}
+		if len(aliases) > 0 {
+			targets = append(targets, aliases[ci%len(aliases)])
+		}
+		for ti, y := range targets {
+			note := "fresh"
+			if ti > 0 {
+				note = "collide_alias"
+			}
+			ren := c19Edit{Kind: "rename", Callable: c.name, New: y, Note: note}
+			var ro, ri c19Edit
+			if len(c.outs) > 0 {
+				o := c.outs[(ci+ti)%len(c.outs)]
+				ro = c19Edit{Kind: "rename_out", Callable: y, Param: o.Name, New: "renamed", Note: "fresh"}
+				out = append(out, c19Combo(note, ren, ro))
+				out = append(out, c19Combo(note, ren, c19Edit{Kind: "remove_out", Callable: y, Param: o.Name, Note: "-"}))
+			}
+			if len(c.ins) > 0 {
+				in := c.ins[(ci+ti)%len(c.ins)]
+				ri = c19Edit{Kind: "rename_in", Callable: y, Param: in.Name, New: "renamed", Note: "fresh"}
+				out = append(out, c19Combo(note, ren, ri))
+				if c.stage {
+					out = append(out, c19Combo(note, ren, c19Edit{Kind: "remove_in", Callable: y, Param: in.Name, Note: "-"}))
+				}
+			}
+			if ro.Kind != "" && ri.Kind != "" {
+				out = append(out, c19Combo(note, ren, ri, ro))
+				out = append(out, c19Combo(note, ren, ro, c19Edit{Kind: "unused_both", Note: "-"}))
+			}
+			out = append(out, c19Combo(note, ren, c19Edit{Kind: "unused_calls", Note: "-"}))
+			out = append(out, c19Combo(note, ren, c19Edit{Kind: "unused_both", Note: "-"}))
+		}
+		// parameter edits combined with each other and with the removals
+		if len(c.outs) > 0 && len(c.ins) > 0 {
+			o, in := c.outs[ci%len(c.outs)], c.ins[ci%len(c.ins)]
+			ro := c19Edit{Kind: "rename_out", Callable: c.name, Param: o.Name, New: "renamed", Note: "fresh"}
+			ri := c19Edit{Kind: "rename_in", Callable: c.name, Param: in.Name, New: "renamed", Note: "fresh"}
+			out = append(out, c19Combo("fresh", ri, ro))
+			out = append(out, c19Combo("fresh", ro, c19Edit{Kind: "unused_both", Note: "-"}))
+		}
+	}
+	// two callables renamed at once, the second onto the OLD name of the first
+	if len(cals) >= 2 {
+		for ci := 0; ci+1 < len(cals); ci += 2 {
+			a, b := cals[ci], cals[ci+1]
+			out = append(out, c19Combo("fresh", c19Edit{Kind: "rename", Callable: a.name, New: "NEWNAME", Note: "fresh"},
+				c19Edit{Kind: "rename", Callable: b.name, New: a.name, Note: "fresh"}))
+		}
 	}
 	return out
 }
